@@ -64,8 +64,15 @@ def draw_system(ch, rng):
     nrb = ch.weighted([3, 2, 1], "nrb")
     nel = ch.weighted([1, 3, 3, 2, 1], "nel")
     nrf = ch.weighted([4, 2, 1], "nrf")
+    cdf_small = False
     if kind in ("cdf_flag", "SolveCDF") and nel < 2:
-        nel = 2  # needs off-diagonal damping between elastic modes
+        # off-diagonal damping needs two elastic modes; in one such draw out of four the system
+        # is left as drawn (0 or 1 elastic mode, diagonal damping): the coupled-damping-as-force
+        # generators then run their degenerate branches (no dynamic modes at all: rf/rb only)
+        if ch.flip(1, 4, "cdf_degenerate"):
+            cdf_small = True
+        else:
+            nel = 2
     if kind == "cplx_eig" and nel < 2:
         nel = 2
     if nrb + nel + nrf == 0:
@@ -126,6 +133,11 @@ def draw_system(ch, rng):
             b = np.diag(bd)
         if ch.flip(1, 4, "k_2d_diag"):
             k = np.diag(kd)
+        if ch.flip(1, 8, "complex_coefficients_unc"):
+            # uncoupled equations with complex stiffness: SolveUnc takes its complex
+            # (eigen-solution) generator with the `unc` branches
+            cplx_coef = True
+            k = k * (1 + 0.03j)
     elif kind == "cplx_eig":
         which = ch.weighted([3, 2, 2, 1], "coupling")  # b, k, b+k, m+b+k
         if which in (0, 2, 3):
@@ -266,7 +278,7 @@ def make_session(M, ch, rng, sysd, mats_shared, sid, st, reuse=None, pre_use=Fal
         same_instance_call(M, ch, rng, s, st, "before generator()")
     pc = getattr(s.ref, "pc", None)
     s.tol = 1e-10
-    if sysd.kind == "cplx_eig" and isinstance(pc, SimpleNamespace) and hasattr(pc, "ur"):
+    if (sysd.kind == "cplx_eig" or sysd.cplx) and isinstance(pc, SimpleNamespace) and hasattr(pc, "ur"):
         if not getattr(pc, "eig_success", True):
             st.probe("eig_not_successful")
             return None
